@@ -1,3 +1,4 @@
+import SdbModel.Generated.TableParams
 import SdbModel.Lemmas.ChangesOrder
 
 /-!
@@ -494,5 +495,10 @@ example : ∃ it, c07State.db.iters[0]? = some it ∧ it.closed = false ∧
   refine ⟨_, rfl, ?_, ?_⟩
   · rfl
   · decide
+
+/-- the structural facts about write_txn.go, graveyard.go, iterator.go and deletetracker.go that
+    `Model.Table` builds in — the change iterator's cursors, its refresh queries and the stale-snapshot rule — hold of the source as it is today (regenerated by
+    `tools/extract` on every run) -/
+theorem C07_source_facts : Gen.tableFacts = Tbl.expectedFacts := by decide
 
 end Sdb
